@@ -284,7 +284,10 @@ func e2eSpecs(r *rng.R, n int) ([]e2eSpec, int) {
 		{{fcfg{Target: "nope"}, false, user}, {fcfg{Target: "id"}, false, acct}},
 	}
 	var specs []e2eSpec
-	for _, bes := range corpus {
+	for i, bes := range corpus {
+		for j := range bes {
+			bes[j].C.ExplicitEmpty = (i+j)%2 == 1
+		}
 		specs = append(specs, e2eSpec{bes})
 	}
 	for i := 0; i < n; i++ {
@@ -327,6 +330,7 @@ func e2eSpecs(r *rng.R, n int) ([]e2eSpec, int) {
 			if !share && r.Chance(1, 2) {
 				c.Group = fmt.Sprintf("g%d", j)
 			}
+			c.ExplicitEmpty = (i+j)%2 == 0
 			bes = append(bes, beSpec{c, ic, p})
 		}
 		// the list order is the imposed arrival order: shuffle it
